@@ -6,15 +6,15 @@ set -u
 pid="$1"; patch="$(realpath "$2")"; demo="${3:-}"
 wt="/tmp/evalmut-$$"
 git -C /repo worktree add -q "$wt" HEAD || exit 2
-trap 'git -C /repo worktree remove --force "$wt" >/dev/null 2>&1' EXIT
+trap 'git -C /repo worktree remove --force "$wt" >/dev/null 2>&1; rm -f /tmp/evalmut-demo-*-$$.log' EXIT
 cp /repo/spsdk/__version__.py "$wt/spsdk/__version__.py"   # generated, git-ignored file the package needs
 if [ -n "$demo" ]; then
   mkdir -p "$wt/_out/x" && cp "$(realpath "$demo")" "$wt/_out/x/demo.py" && demo="$wt/_out/x/demo.py"   # demos may locate the tree relative to themselves
-  ( cd "$wt" && PYTHONPATH="$wt" SPSDK_CACHE_FOLDER="$wt/_cache" timeout 600 /venv/bin/python "$demo" >/tmp/evalmut-demo-base.log 2>&1 ); echo "demo on HEAD: rc=$? ($(tail -1 /tmp/evalmut-demo-base.log))"
+  ( cd "$wt" && PYTHONPATH="$wt" SPSDK_CACHE_FOLDER="$wt/_cache" timeout 600 /venv/bin/python "$demo" >/tmp/evalmut-demo-base-$$.log 2>&1 ); echo "demo on HEAD: rc=$? ($(tail -1 /tmp/evalmut-demo-base-$$.log))"
 fi
 git -C "$wt" apply "$patch" || { echo "PATCH DOES NOT APPLY"; exit 2; }
 if [ -n "$demo" ]; then
-  ( cd "$wt" && PYTHONPATH="$wt" SPSDK_CACHE_FOLDER="$wt/_cache" timeout 600 /venv/bin/python "$demo" >/tmp/evalmut-demo-mut.log 2>&1 ); echo "demo with change: rc=$? ($(tail -1 /tmp/evalmut-demo-mut.log))"
+  ( cd "$wt" && PYTHONPATH="$wt" SPSDK_CACHE_FOLDER="$wt/_cache" timeout 600 /venv/bin/python "$demo" >/tmp/evalmut-demo-mut-$$.log 2>&1 ); echo "demo with change: rc=$? ($(tail -1 /tmp/evalmut-demo-mut-$$.log))"
 fi
 cd /verif
 VERIF_REPO="$wt" VERIF_WORK="/verif/.work/mut-$$" VERIF_OUT_DIR="/verif/.work/mut-$$/out" ./check "$pid" --tier "${TIER:-quick}" 2>&1 | grep -v "^ERROR" | grep -E "^VIOLATION|clause=|^\[|HARNESS|KNOWN" | cut -c1-260 | head -${LINES_MAX:-14}
